@@ -1,6 +1,6 @@
 (* C06 — property theorems only. *)
 From Coq Require Import List Bool.
-From IV Require Import C06.Defs C06.Proofs.
+From IV Require Import C06.Defs C06.Proofs C06.Syntax.
 Import ListNotations.
 
 (* For EVERY type built from pointers, references, rvalue references, const, arrays, functions and method pointers,
@@ -23,3 +23,16 @@ Print Assumptions c06_data_member_pointer_refuted.
 Theorem c06_old_array_printer_refuted : denotes (pr_old (TPtr (TArr (TBase 0) 3)) [] NName) = TArr (TPtr (TBase 0)) 3.
 Proof. exact old_array_printer_refuted. Qed.
 Print Assumptions c06_old_array_printer_refuted.
+
+(* the printed declarator is possible C++ syntax (no parenthesised group opens with a cv-qualifier) for every type in which const never sits
+   directly on an array or function type, i.e. every type that can be written without an alias *)
+Theorem c06_printed_groups_ok : forall t, writable t = true -> groups_ok (snd (pr t [] NName)) = true.
+Proof. exact printed_groups_ok. Qed.
+Print Assumptions c06_printed_groups_ok.
+
+(* const U * with U = T[2], reachable only through an alias or template parameter, is printed with a group that opens with const: a recorded finding *)
+Theorem c06_const_array_group_refuted :
+  let t := TPtr (TPtr (TConst (TArr (TBase 0) 2))) in
+  writable t = false /\ groups_ok (snd (pr t [] NName)) = false /\ denotes (pr t [] NName) = t.
+Proof. exact const_array_group_refuted. Qed.
+Print Assumptions c06_const_array_group_refuted.
